@@ -237,7 +237,7 @@ pub fn run(thorough: bool, seed: u64, driver: &str, rep: &mut Report) {
             let mut rng = Rng::new(job.seed);
             let mut batch = Batch::new("c11.ops");
             let mut run_all = |t: &Rose, rng: &mut Rng, exhaustive: bool, rep: &mut Report, batch: &mut Batch| {
-                let how = *rng.pick(&["api", "bfs", "tomb", "parse", "grown", "bottomup"]);
+                let how = *rng.pick(&["api", "bfs", "tomb", "tomb2", "parse", "grown", "bottomup"]);
                 let start = format!("real.build\t{how}\t{}\t{}", t.canon(), rng.next() % 100_000);
                 // learn the arena to enumerate arguments
                 let mut st = RealState::new();
